@@ -6,7 +6,10 @@
 prop="$1"
 tier="${2:-${VERIF_TIER:-quick}}"
 export GOFLAGS=-mod=mod GOPROXY=off GOSUMDB=off GOTOOLCHAIN=local
-cd /verif || exit 2
+# location-independent: a snapshot of /verif (vp run) checks from its own copy
+here="$(cd "$(dirname "$0")" && pwd)"
+cd "$here" || exit 2
+export VERIF_ROOT="$here"
 mkdir -p bin evidence
 if ! go build -tags verif -o "bin/geomsim-$prop" ./cmd/geomsim 2>"bin/build-$prop.log"; then
 	echo "check.sh: build against /repo failed (not a property violation):" >&2
